@@ -8,7 +8,7 @@ CHECKS = {
  "C07": dict(
   technique="exhaustive operator / built-in / access-form x value-kind matrices with a crash oracle + rapid grammar-based 'wild' programs and semantic seed programs under a deterministic step/depth budget + depth-10000 nesting through the real CLI (+ native coverage-guided fuzzing in the thorough tier)",
   text="Every binary operator x every ordered pair of 48 operand producers, unary operators and pairs of them; all 17 built-ins x 0-3 arguments over every combination of 37 argument producers; 20 index/property/call/statement forms x every ordered pair of 25 values; random syntactically valid programs over every node form (bounded by the step and call-depth budget, so loops and recursion cannot wedge the worker) and programs of every semantic generator and the shipped examples; nesting of parentheses, arrays, blocks, unary operators, call chains, index chains, property chains, if-chains and bounded recursion to depth 10 000 through the CLI. Outcome must be normal end or a reported runtime error; a recovered panic, a dead worker, a Go banner or exit status 2 is a violation. Exploration.",
-  note="Open findings excluded by construction and probed on every run: unbounded recursion and printing a self-containing array/object exhaust the host stack. Budget hits are inconclusive, never violations.",
+  note="Open finding excluded by construction and probed on every run: unbounded recursion exhausts the host stack. Printing a self-containing array/object did the same until fix be2ee0a; such prints are now generated on purpose and must end in a runtime error. Budget hits are inconclusive, never violations.",
   ref="4 C07"),
  "C13": dict(
   technique="repetition as schedule sampling: each program is executed N times in one process and M times as fresh processes and all observations must be byte-identical; object-heavy generated programs + all semantic generators + shipped examples; source-order oracle for object-literal initialisers",
